@@ -1,15 +1,23 @@
 #![allow(dead_code)]
 //! vh — the verification harness for rescrv/blue.  One subcommand per check; see /verif/DESIGN.md.
 
+mod alloc;
 mod util;
 #[path = "gen.rs"]
 mod r#gen;
 mod c10;
 mod c11;
+mod c12;
 mod c14;
+mod c15;
 mod c16;
+mod c19;
 
 use util::Args;
+
+#[cfg(not(miri))]
+#[global_allocator]
+static GLOBAL: alloc::CountingAlloc = alloc::CountingAlloc;
 
 fn main() {
     let argv: Vec<String> = std::env::args().collect();
@@ -22,8 +30,12 @@ fn main() {
     match argv[1].as_str() {
         "c10" => c10::run(&args),
         "c11" => c11::run(&args),
+        "c12" => c12::run(&args),
+        "c12conc" => c12::run_conc(&args),
         "c14" => c14::run(&args),
+        "c15" => c15::run(&args),
         "c16" => c16::run(&args),
+        "c19" => c19::run(&args),
         "c14ref" => c14::run_ref(&args),
         other => {
             eprintln!("unknown check {other}");
